@@ -69,6 +69,13 @@ Theorem form_faithful_sparserows : forall m c shape, rect c m -> (m = [] -> shap
 Proof. exact faithful_sparserows. Qed.
 Print Assumptions form_faithful_sparserows.
 
+(* list of sparse rows whose first one is a dok_matrix (a dict subclass: it takes the converter of the
+   row dicts): the rows state the width themselves, whatever the ids say *)
+Theorem form_faithful_dokrows : forall m c shape, rect c m -> 0 < c -> (m = [] -> shape = (0, c)) ->
+  to_dense (enc_dokrows c m) shape = ROk (length m, c, m).
+Proof. exact faithful_dokrows. Qed.
+Print Assumptions form_faithful_dokrows.
+
 (* scipy sparse matrix of any layout = stored entries + its own shape; whatever shape the ids say *)
 Theorem form_faithful_sparse : forall es m c shape, rect c m -> represents es (length m) c m ->
   to_dense (InSparse (length m) c es) shape = ROk (length m, c, m).
@@ -234,6 +241,14 @@ Example ex_malformed :
   construct default_profile (enc_lists ex_m) [10;20;30;40]%Z [1;2;3;4]%Z None None 0%Z = RErr E_TABLE /\
   construct default_profile (enc_sparse 4 ex_m) [10;20;30]%Z [1;2;3;4]%Z None (Some [MdNone; MdOther true (I 5%Z); MdNone; MdNone]) 0%Z
     = RErr E_TABLE.
+Proof. vm_compute. repeat split; reflexivity. Qed.
+(* old F43: 1x4 dok rows with five (or three) sample ids are refused, with four accepted *)
+Example ex_dokrows :
+  let rows := InDokRows [(4, [(0,1%Z);(2,2%Z)]); (4, [(1,3%Z)])] in
+  construct default_profile rows [1;2]%Z [5;6;7;8;9]%Z None None 0%Z = RErr E_TABLE /\
+  construct default_profile rows [1;2]%Z [5;6;7]%Z None None 0%Z = RErr E_TABLE /\
+  construct default_profile rows [1;2]%Z [5;6;7;8]%Z None None 0%Z
+    = ROk (mkT [1;2]%Z [5;6;7;8]%Z [[1;0;2;0];[0;3;0;0]]%Z None None 0%Z).
 Proof. vm_compute. repeat split; reflexivity. Qed.
 (* the old findings F29, F31, F32 as they behave now *)
 Example ex_repaired :
